@@ -314,6 +314,27 @@ impl ManifestNamespace {
         table_id.join(DELIMITER)
     }
 
+    /// Check that every name of an id can be stored faithfully in an object id.
+    ///
+    /// Object ids join the names with the delimiter, so a name that is empty or contains
+    /// the delimiter would read back as a different id (`["a$b"]` and `["a", "b"]` would
+    /// share the object id `a$b`). Such names are rejected.
+    fn validate_object_id(id: &[String]) -> Result<()> {
+        for name in id {
+            if name.is_empty() || name.contains(DELIMITER) {
+                return Err(Error::InvalidInput {
+                    source: format!(
+                        "Invalid name '{}' in id {:?}: a name must not be empty or contain '{}'",
+                        name, id, DELIMITER
+                    )
+                    .into(),
+                    location: location!(),
+                });
+            }
+        }
+        Ok(())
+    }
+
     /// Generate a new directory name in format: <hash>_<object_id>
     /// The hash is used to (1) optimize object store throughput,
     /// (2) have high enough entropy in a short period of time to prevent issues like
@@ -845,6 +866,7 @@ impl ManifestNamespace {
 
     /// Register a table in the manifest without creating the physical table (internal helper for migration)
     pub async fn register_table(&self, name: &str, location: String) -> Result<()> {
+        Self::validate_object_id(&[name.to_string()])?;
         let object_id = Self::build_object_id(&[], name);
         if self.manifest_contains_object(&object_id).await? {
             return Err(Error::io(
@@ -992,6 +1014,7 @@ impl LanceNamespace for ManifestNamespace {
             source: "Namespace ID is required".into(),
             location: location!(),
         })?;
+        Self::validate_object_id(namespace_id)?;
 
         // Build filter to find tables in this namespace
         let filter = if namespace_id.is_empty() {
@@ -1041,6 +1064,7 @@ impl LanceNamespace for ManifestNamespace {
             source: "Table ID is required".into(),
             location: location!(),
         })?;
+        Self::validate_object_id(table_id)?;
 
         if table_id.is_empty() {
             return Err(Error::InvalidInput {
@@ -1102,6 +1126,7 @@ impl LanceNamespace for ManifestNamespace {
             source: "Table ID is required".into(),
             location: location!(),
         })?;
+        Self::validate_object_id(table_id)?;
 
         if table_id.is_empty() {
             return Err(Error::InvalidInput {
@@ -1133,6 +1158,7 @@ impl LanceNamespace for ManifestNamespace {
             source: "Table ID is required".into(),
             location: location!(),
         })?;
+        Self::validate_object_id(table_id)?;
 
         if table_id.is_empty() {
             return Err(Error::InvalidInput {
@@ -1237,6 +1263,7 @@ impl LanceNamespace for ManifestNamespace {
             source: "Table ID is required".into(),
             location: location!(),
         })?;
+        Self::validate_object_id(table_id)?;
 
         if table_id.is_empty() {
             return Err(Error::InvalidInput {
@@ -1291,6 +1318,7 @@ impl LanceNamespace for ManifestNamespace {
             source: "Namespace ID is required".into(),
             location: location!(),
         })?;
+        Self::validate_object_id(parent_namespace)?;
 
         // Build filter to find direct child namespaces
         let filter = if parent_namespace.is_empty() {
@@ -1343,6 +1371,7 @@ impl LanceNamespace for ManifestNamespace {
             source: "Namespace ID is required".into(),
             location: location!(),
         })?;
+        Self::validate_object_id(namespace_id)?;
 
         // Root namespace always exists
         if namespace_id.is_empty() {
@@ -1374,6 +1403,7 @@ impl LanceNamespace for ManifestNamespace {
             source: "Namespace ID is required".into(),
             location: location!(),
         })?;
+        Self::validate_object_id(namespace_id)?;
 
         // Root namespace always exists and cannot be created
         if namespace_id.is_empty() {
@@ -1425,6 +1455,7 @@ impl LanceNamespace for ManifestNamespace {
             source: "Namespace ID is required".into(),
             location: location!(),
         })?;
+        Self::validate_object_id(namespace_id)?;
 
         // Root namespace always exists and cannot be dropped
         if namespace_id.is_empty() {
@@ -1493,6 +1524,7 @@ impl LanceNamespace for ManifestNamespace {
             source: "Namespace ID is required".into(),
             location: location!(),
         })?;
+        Self::validate_object_id(namespace_id)?;
 
         // Root namespace always exists
         if namespace_id.is_empty() {
@@ -1523,6 +1555,7 @@ impl LanceNamespace for ManifestNamespace {
             source: "Table ID is required".into(),
             location: location!(),
         })?;
+        Self::validate_object_id(table_id)?;
 
         if table_id.is_empty() {
             return Err(Error::InvalidInput {
@@ -1618,6 +1651,7 @@ impl LanceNamespace for ManifestNamespace {
             source: "Table ID is required".into(),
             location: location!(),
         })?;
+        Self::validate_object_id(table_id)?;
 
         if table_id.is_empty() {
             return Err(Error::InvalidInput {
@@ -1695,6 +1729,7 @@ impl LanceNamespace for ManifestNamespace {
             source: "Table ID is required".into(),
             location: location!(),
         })?;
+        Self::validate_object_id(table_id)?;
 
         if table_id.is_empty() {
             return Err(Error::InvalidInput {
